@@ -329,6 +329,42 @@ def op_write_read(ctx, st, op, prop, info):
     ctx.state_changes += 1
 
 
+def op_sibling(ctx, st, op, prop, info):
+    """The caller keeps using ANOTHER result object that shares caller-owned inputs with the one under test (built from
+    the same meta dict, or being one of the objects an azimuthal container was built from): each must round-trip as
+    itself, whatever was done to the other in the meantime."""
+    from . import hvsrobj as M
+    sib = None
+    if getattr(st, "sibling", None) is not None:
+        sib = st.sibling
+    elif getattr(st, "src_members", None):
+        sib = st.src_members[op["az"] % len(st.src_members)]
+    info["log"] = ["sibling", op["do"]]
+    if sib is None:
+        info["log"].append("none")
+        return
+    fs = _fs(st, ctx)
+    if op["do"] == "update":
+        sib.update_peaks_bounded(search_range_in_hz=tuple(op["range"]), find_peaks_kwargs=copy.deepcopy(op["kwargs"]))
+        ctx.probe("sibling_updated")
+        return
+    path = op["path"] + ".sib"
+    try:
+        write_obj(fs, sib, path, op["dmc"], op["dfn"])
+        data = fs.read_bytes(path)
+        R = read_obj(fs, path)
+    except Exception as e:                          # noqa
+        info["log"].append(type(e).__name__)
+        if prop == "C12":
+            ctx.check(not _accepted_ok(sib), "read_back_raised",
+                      f"sibling: write/read raised {type(e).__name__}: {e}", key={"which": "sibling"})
+        return
+    info["log"].append(len(data))
+    if prop == "C12" and _accepted_ok(sib):
+        judge_roundtrip(ctx, st, "trad", sib, R, data, op, fs)
+        ctx.probe("sibling_roundtrip_judged")
+
+
 def judge_roundtrip(ctx, st, which, W, R, data, op, fs):
     from . import hvsrobj as M
     H = M.hv()
